@@ -44,11 +44,16 @@ theorem groupsum_bucket_eq_spec (pairs : List (Nat × R)) : groupBucket pairs = 
   intro k _
   rw [bucketAcc_eq_sumOf]
 
-/-- **numpy variant = specification**: stable sort, running sum, run ends, neighbour differences yield, for every
-    list of (label, value) pairs, the ascending distinct labels with the sum of the values carrying each
-    (exact arithmetic; the float variant differs by the rounding of the running sum) -/
+/-- **numpy variant = specification**: a stable sort followed by one sum per run of equal labels yields, for every list
+    of (label, value) pairs, the ascending distinct labels with the sum of the values carrying each -/
 theorem groupsum_np_eq_spec (pairs : List (Nat × R)) : groupNp pairs = groupSpec pairs :=
   PPV.Lemmas.GroupNp.groupNp_eq_spec pairs
+
+/-- the former implementation (differences of one running total over the whole array) computes the same in exact
+    arithmetic — the two differ only in floating point, where the running total's rounding error reached every later group;
+    that float-level defect was repaired (fix 934215f) and is guarded by the accuracy test of the correspondence check -/
+theorem groupsum_np_cumsum_eq_spec (pairs : List (Nat × R)) : groupNpCumsum pairs = groupSpec pairs :=
+  PPV.Lemmas.GroupNp.groupNpCumsum_eq_spec pairs
 
 /-- hence the two engines' grouped sums agree on every input -/
 theorem groupsum_np_eq_numba (pairs : List (Nat × R)) : groupNp pairs = groupBucket pairs := by
